@@ -15,7 +15,7 @@ RULE = ('Random edit histories of 5-60 operations over a pool of 1-5 molecules: 
         'existing key), add_nodes_from, remove_node (random / highest), remove_nodes_from (list, set, tuple, one-shot '
         'iterator, live views of the molecule itself), add_edge, remove_edge, add_interaction (valid / unknown atom), add_or_replace_interaction, '
         'remove_interaction, remove_matching_interaction, copy, subgraph, merge_molecule (other molecule, copy of '
-        'itself, Block.to_molecule output, a Block), make_edges_from_interaction_type, MergeAllMolecules, MergeChains. '
+        'itself, Block.to_molecule output, a Block), make_edges_from_interaction_type, clear, MergeAllMolecules, MergeChains. '
         'After each operation every molecule of the pool (also sources of earlier copies/subgraphs) is compared with '
         'its shadow. Non-trivial history = >= 2 merges into the same molecule separated by a node addition or removal. '
         'distinct = distinct operation sequences. Also: the citation keys of the molecule (copies, subgraphs, add_or_replace with citations, merges); add_or_replace_interaction on absent/removed atoms; residue number and charge group 0 or negative, empty chain.')
@@ -271,7 +271,7 @@ def run_history(rnd, nops, b):
                          'remove_nodes_from', 'add_edge', 'add_edge', 'remove_edge', 'add_interaction',
                          'add_interaction', 'add_interaction_bad', 'add_or_replace', 'add_or_replace_bad', 'remove_interaction',
                          'remove_interaction_bad', 'remove_matching', 'copy', 'subgraph', 'merge', 'merge', 'merge',
-                         'merge_block', 'make_edges', 'merge_all', 'merge_chains', 'set_attr', 'set_attr'])
+                         'merge_block', 'make_edges', 'merge_all', 'merge_chains', 'set_attr', 'set_attr', 'clear'])
         entry = [op, idx]
         try:
             if op == 'add_node':
@@ -341,6 +341,12 @@ def run_history(rnd, nops, b):
                 s.changed_since_merge = True
                 entry += [ks, form]
                 b.feat('op_remove_nodes_from_' + form)
+            elif op == 'clear' and len(pool) > 1 and rnd.random() < 0.3:
+                # networkx' own way of removing every atom at once
+                m.clear()
+                s.nodes, s.edges, s.inter = {}, {}, {}
+                s.changed_since_merge = True
+                b.feat('op_clear')
             elif op == 'add_edge' and len(keys) >= 2:
                 u, v = rnd.sample(keys, 2)
                 a = {'distance': round(rnd.random(), 3)} if rnd.random() < 0.3 else {}
